@@ -339,14 +339,18 @@ theorem Acc_dataCore (q : Quirks) (now : Nat) (c cid : Conn) (s : State) (cmd : 
     simp only [dataCore]
     split
     · exact Acc_emit_none rfl h
-    · refine Acc_congr (notifyN_pushed _ _ _) (notifyN_out _ _ _) (notifyN_lost _ _ _) (notifyN_store _ _ _) ?_
-      apply Acc_emit_none rfl
-      unfold Acc
-      show (s.pushed ++ vs.map fun v => (k, v)).Perm (delivered s ++ s.lost ++ pushElems op k vs s.store)
-      refine (List.Perm.append_right _ h).trans ?_
-      show (delivered s ++ s.lost ++ s.store ++ vs.map fun v => (k, v)).Perm _
-      rw [List.append_assoc (delivered s ++ s.lost)]
-      exact List.Perm.append_left _ (pushElems_perm op k vs s.store).symm
+    · have h2 : Acc (emit { s with store := pushElems op k vs s.store, pushed := (s.pushed ++ vs.map fun v => (k, v)) } c
+          (.int (listOf (pushElems op k vs s.store) k).length)) := by
+        apply Acc_emit_none rfl
+        unfold Acc
+        show (s.pushed ++ vs.map fun v => (k, v)).Perm (delivered s ++ s.lost ++ pushElems op k vs s.store)
+        refine (List.Perm.append_right _ h).trans ?_
+        show (delivered s ++ s.lost ++ s.store ++ vs.map fun v => (k, v)).Perm _
+        rw [List.append_assoc (delivered s ++ s.lost)]
+        exact List.Perm.append_left _ (pushElems_perm op k vs s.store).symm
+      split
+      · exact h2
+      · exact Acc_congr (notifyN_pushed _ _ _) (notifyN_out _ _ _) (notifyN_lost _ _ _) (notifyN_store _ _ _) h2
   | pop op k =>
     simp only [dataCore]
     split
@@ -367,8 +371,31 @@ theorem Acc_dataCore (q : Quirks) (now : Nat) (c cid : Conn) (s : State) (cmd : 
   | exec => exact h
 
 theorem Acc_dataCmd (q : Quirks) (now : Nat) (c cid : Conn) (s : State) (cmd : Cmd) (h : Acc s) :
-    Acc (dataCmd q now c cid s cmd) :=
-  Acc_drain q _ (Acc_dataCore q now c cid s cmd h)
+    Acc (dataCmd q now c cid s cmd) := by
+  unfold dataCmd
+  split
+  · exact Acc_dataCore q now c cid s cmd h
+  · exact Acc_drain q _ (Acc_dataCore q now c cid s cmd h)
+
+theorem Acc_notify (k : Key) (s : State) (h : Acc s) : Acc (notify k s) :=
+  Acc_congr (notify_pushed _ _) (notify_out _ _) (notify_lost _ _) (notify_store _ _) h
+
+theorem Acc_serveKey (q : Quirks) (k : Key) : ∀ n s, Acc s → Acc (serveKey q k n s) := by
+  intro n
+  induction n with
+  | zero => intro s h; exact h
+  | succ n ih =>
+    intro s h
+    simp only [serveKey]
+    split
+    · exact ih _ (Acc_wakeOne q _ (Acc_notify k s h))
+    · exact h
+
+theorem Acc_serveKeys (q : Quirks) (ks : List Key) : ∀ s, Acc s → Acc (serveKeys q ks s) := by
+  unfold serveKeys
+  induction ks with
+  | nil => intro s h; exact h
+  | cons k r ih => intro s h; exact ih _ (Acc_serveKey q k _ s h)
 
 theorem Acc_foldl_dataCmd (q : Quirks) (now : Nat) (c cid : Conn) (cmds : List Cmd) :
     ∀ s, Acc s → Acc (cmds.foldl (dataCmd q now c cid) s) := by
@@ -388,7 +415,11 @@ theorem Acc_topCmd (q : Quirks) (now : Nat) (c : Conn) (s : State) (cmd : Cmd) (
     · exact Acc_emit_none rfl (Acc_setConn h)
   | exec =>
     simp only [topCmd]; split
-    · exact Acc_foldl_dataCmd q now c 0 _ _ (Acc_emit_none rfl (Acc_setConn h))
+    · have h2 := Acc_foldl_dataCmd q now c 0 (s.conns c).queue _ (Acc_emit_none (c := c) (r := .arrHdr (s.conns c).queue.length) rfl
+        (Acc_setConn (c := c) (f := fun cs => { cs with inTx := false, queue := [] }) h))
+      split
+      · exact Acc_serveKeys q _ _ h2
+      · exact h2
     · exact Acc_emit_none rfl h
   | push op k vs =>
     simp only [topCmd]; split
